@@ -158,6 +158,46 @@ def prove(ctx):
 
 
 # ---------------------------------------------------------------------------------------
+# corpus: the witnesses of the repaired defects run first, for the properties they belong to
+# ---------------------------------------------------------------------------------------
+
+def run_corpus(ctx):
+    path = os.path.join(VERIF, "corpus", "defects.json")
+    if not os.path.exists(path):
+        return
+    entries = [e for e in json.load(open(path)) if ctx.prop in e["properties"]]
+    if not entries:
+        return
+    cases = []
+    for k, e in enumerate(entries):
+        c = json.loads(json.dumps(e["case"]))
+        c["id"] = "corpus%d" % k
+        cases.append(c)
+    impl = core.run_impl(cases, timeout_ms=10000)
+    model = core.run_model(cases)
+    for e, c in zip(entries, cases):
+        ctx.count(c)
+        a = core.obs_impl(impl[c["id"]])
+        b = core.obs_model(model[c["id"]])
+        acc = a["outcome"] == ("ret", None) and any(t.startswith("A:") for t in a["trace"])
+        exp = e["expect_accepted"]
+        bad = None
+        if a["outcome"][0] in ("timeout", "died", "stackoverflow", "crash"):
+            bad = "does not end normally: %r" % (a["outcome"],)
+        elif exp is None:
+            if not (a["outcome"][0] == "panic" and str(a["outcome"][1]).startswith("parse:")):
+                bad = "must be refused as a spec error, the end is %r" % (a["outcome"],)
+        elif acc != exp:
+            bad = "must be %s, the end is %r" % ("accepted" if exp else "rejected", a["outcome"])
+        if bad:
+            ctx.violation("corpus", "defect %s is back (%s): spec %r env %r argv %r %s"
+                          % (e["id"], e["note"], c["root"]["spec"], c["env"], c["argv"], bad), case=c)
+        elif (a["outcome"], a["trace"]) != (b["outcome"], b["trace"]):
+            ctx.mismatch("corpus %s: Impl and model differ" % e["id"], case=c, impl=a["outcome"], model=b["outcome"])
+    ctx.stream("corpus of repaired defects", len(cases), ids=[e["id"] for e in entries])
+
+
+# ---------------------------------------------------------------------------------------
 # finishing
 # ---------------------------------------------------------------------------------------
 
